@@ -95,7 +95,7 @@ class TCPServer:
                 try:
                     self.writer.write(event.data)
                     await self.writer.drain()
-                except (ConnectionError, RuntimeError):
+                except (OSError, RuntimeError):
                     await self.protocol.handle(Closed())
         elif isinstance(event, Closed):
             await self._close()
@@ -140,9 +140,7 @@ class TCPServer:
         try:
             await self._close_writer()
         except (
-            BrokenPipeError,
-            ConnectionAbortedError,
-            ConnectionResetError,
+            OSError,  # Whatever the connection was lost to
             RuntimeError,
             asyncio.CancelledError,
         ):
@@ -172,7 +170,9 @@ class TCPServer:
                 try:
                     await asyncio.wait_for(asyncio.shield(closed), self.config.keep_alive_timeout)
                 except asyncio.TimeoutError:
-                    if buffered() >= remaining:
+                    if closed.done():
+                        break  # Lost to a time out of the connection's own
+                    elif buffered() >= remaining:
                         transport.abort()
                 else:
                     break
@@ -185,7 +185,7 @@ class TCPServer:
         await self.protocol.handle(Closed())
         try:
             await self._close_writer()
-        except (ConnectionError, RuntimeError):
+        except (OSError, RuntimeError):
             pass  # Already closed
 
     async def _idle_timeout(self) -> None:
